@@ -68,6 +68,7 @@ var c02UnitNames = []string{
 	"lt", "lte", "gt", "gte", "neq", "in-expr", "or-expr-single", "and-expr-single",
 	"group-rawor-and", "group-and-rawor",
 	"raw-or-quote-adjacent", "raw-or-placeholder-adjacent",
+	"group-map-namedor", "group-eq-rawor",
 }
 
 func c02MakeUnit(kind int, db *gorm.DB, row *sqlRow, tag string) c02Unit {
@@ -161,6 +162,13 @@ func c02MakeUnit(kind int, db *gorm.DB, row *sqlRow, tag string) c02Unit {
 		return c02Unit{query: db.Where("a = ? "+symKW(tag+"_k", "OR")+" b = ?", x, y).Where("c = ?", z), exp: tvAnd(tvOr(ax, by), cz)}
 	case "group-and-rawor":
 		return c02Unit{query: db.Where("c = ?", z).Where("a = ? "+symKW(tag+"_k", "OR")+" b = ?", x, y), exp: tvAnd(cz, tvOr(ax, by))}
+	case "group-map-namedor":
+		// a negatable member (map) AND a raw member with named arguments containing OR
+		return c02Unit{query: db.Where(map[string]interface{}{"a": x}).Where("b = @p "+symKW(tag+"_k", "OR")+" c = @q", sql.Named("p", y), sql.Named("q", z)),
+			exp: tvAnd(ax, tvOr(by, cz)), members: []tv3{ax, tvOr(by, cz)}}
+	case "group-eq-rawor":
+		// (a unit with a negatable member is negated member by member, like maps and structs)
+		return c02Unit{query: db.Where(clause.Eq{Column: "a", Value: x}).Where("b = ? "+symKW(tag+"_k", "OR")+" c = ?", y, z), exp: tvAnd(ax, tvOr(by, cz)), members: []tv3{ax, tvOr(by, cz)}}
 	case "group-or-map-raw":
 		return c02Unit{query: db.Where(map[string]interface{}{"a": x}).Or("b = ?", y), exp: tvOr(ax, by)}
 	case "group-or-raw-eq":
